@@ -10,7 +10,12 @@
 #define STRK(name) M__ZNKSt7__cxx1112basic_stringIcSt11char_traitsIcESaIcEE##name
 static void ir_throw_std(void) { __ir_exc_pending = 1; __ir_exc_obj = 0; __ir_exc_ti = 0; }
 static void s_init(u8* s) { u8* b = IR_ALLOC(SCAP); b[0] = 0; S_P(s) = b; S_LEN(s) = 0; }
-static void s_set(u8* s, const u8* src, u64 n) { IR_ASSERT(n < SCAP, "BOUND: string longer than SCAP"); IR_ASSUME(n < SCAP); u8* d = S_P(s); for (u64 i = 0; i < n; i++) d[i] = src[i]; d[n] = 0; S_LEN(s) = n; }
+static void s_set(u8* s, const u8* src, u64 n) { IR_ASSERT(n < SCAP, "BOUND: string longer than SCAP"); IR_ASSUME(n < SCAP); u8* d = S_P(s);
+#ifdef S_NUMERIC_ATOMS
+  /* numeric atoms (models/pml.c) are copied as one word so that the value stays one term */
+  if (n == 9 && (src[8] == 1 || src[8] == 2)) { *(u64*)d = *(const u64*)src; d[8] = src[8]; d[9] = 0; *(u64*)(d + 16) = *(const u64*)(src + 16); *(u64*)(d + 24) = *(const u64*)(src + 24); S_LEN(s) = 9; return; }
+#endif
+  for (u64 i = 0; i < n; i++) d[i] = src[i]; d[n] = 0; S_LEN(s) = n; }
 static u64 c_len(const u8* c) { u64 n = 0; while (c[n]) n++; return n; }
 void STR(C2Ev)(u8* s) { s_init(s); }
 void STR(C2ERKS3_)(u8* s, u8* alloc) { s_init(s); }
@@ -87,3 +92,13 @@ u8* M_os_insert(u8* os, u8* c, u64 n) { STR(6appendEPKcm)(OS_BUF(os), c, n); ret
 u8* M_os_ls_cstr(u8* os, u8* c) { STR(6appendEPKcm)(OS_BUF(os), c, c_len(c)); return os; }
 u8* M_os_ls_char(u8* os, u8 c) { STR(6appendEPKcm)(OS_BUF(os), &c, 1); return os; }
 u8* M_os_ls_str(u8* os, u8* s) { STR(6appendEPKcm)(OS_BUF(os), S_P(s), S_LEN(s)); return os; }
+u8* STR(6appendEPKc)(u8* s, u8* c) { return STR(6appendEPKcm)(s, c, c_len(c)); }
+u8* STR(6insertEmPKc)(u8* s, u64 pos, u8* c) {
+  u64 l = S_LEN(s), n = c_len(c);
+  if (pos > l) { ir_throw_std(); return s; }
+  IR_ASSERT(l + n < SCAP, "BOUND: insert beyond SCAP"); IR_ASSUME(l + n < SCAP);
+  u8* d = S_P(s);
+  for (u64 i = l; i > pos; i--) d[i - 1 + n] = d[i - 1];
+  for (u64 i = 0; i < n; i++) d[pos + i] = c[i];
+  d[l + n] = 0; S_LEN(s) = l + n; return s;
+}
